@@ -1111,7 +1111,7 @@ func sortedParamNames(m map[string]int64) []string {
 // restartInc replaces a crashed incremental solver by a fresh process and re-establishes
 // the assertion stack of the current path prefix.
 func (ex *Exec) restartInc() bool {
-	if ex.journalOn || ex.restarts > 200 {
+	if ex.journalOn || ex.restarts > 5000 {
 		return false
 	}
 	ex.restarts++
